@@ -453,6 +453,8 @@ static int the_hook(int kind, const char *path, char *const argv[], char *const 
     ev_begin(&e, 'R');
     ev_int(&e, kind); ev_int(&e, c->hook_calls); ev_int(&e, flags);
     ev_field(&e, st.p, st.len); ev_field(&e, ps.p, ps.len); ev_int(&e, c->tno); ev_int(&e, c->callno);
+    ev_int(&e, (long long) syscall(SYS_gettid));                       /* 7: kernel tid of the calling thread */
+    { char tt[32]; snprintf(tt, sizeof tt, "%lu", (unsigned long) pthread_self()); ev_str(&e, tt); }   /* 8: pthread_self */
     ev_end(&e); ev_free(&e);
     if (c->real) {
         sinks_dump();
